@@ -13,10 +13,6 @@ model of `PublicKey::from_slice` (dalek decompress – recompress – compare). 
 namespace Drv
 namespace C12
 def H : Bytes → Bytes := Keccak.keccak256
-/-- the key test formerly run on the model side: the RFC 8032 reference decoder, then recompress and compare (kept for
-reference; it shares its decoder with `validKeySpec`) -/
-def validKeyRfc (k : Bytes) : Bool :=
-  k.length == 32 && match Ed.decompress (Ed.leNat k) with | none => false | some P => Ed.compress P == Ed.leNat k
 /-- `PublicKey::from_slice` as the library computes it (Model/Keys.lean, the model of C13): length 32, dalek's PERMISSIVE
 decompress (y taken modulo p, sign applied by negation), compress again, compare the bytes. The spec side below uses the
 strict RFC 8032 decoder, so relations B and C run two different predicates; `C13_public_eq_reference` and
@@ -32,11 +28,15 @@ def showModel : Option Address → String
 def showSpec : Option (Net × Kind × Bytes × Bytes × Bytes) → String
   | none => "err"
   | some (n, k, s, v, p) => s!"ok {showNet n} {showKind k} {Hex.encode s} {Hex.encode v} {Hex.encode p} {Hex.encode (Spec.Address.blob H n k s v p)} {Hex.encode (Spec.Address.text H n k s v p)}"
-/-- the arguments of a formatting op; `none` if they do not describe a constructible address -/
-def mkAddr (n k s v p : String) : Option (Option Address) := do
+/-- the arguments of a formatting op, ungated: the address the arguments describe (`none` = malformed operation line) -/
+def mkAddr (n k s v p : String) : Option Address := do
   let n ← netOfStr n; let k ← kindOfStr k
-  let a : Address := ⟨n, k, Hex.decode p, Hex.decode s, Hex.decode v⟩
-  pure (if validKey a.spend && validKey a.view && a.pid.length == (if k = .Integrated then 8 else 0) then some a else none)
+  pure ⟨n, k, Hex.decode p, Hex.decode s, Hex.decode v⟩
+/-- "the constructors can build it": both keys pass the given key test and the payment id has 8 bytes exactly for integrated
+addresses. Each column of the formatting ops applies this gate with ITS OWN key test (`validKey` on the model side,
+`validKeySpec` on the spec side), so a disagreement of the two key predicates is visible on the formatting ops too. -/
+def constructible (vk : Bytes → Bool) (a : Address) : Bool :=
+  vk a.spend && vk a.view && a.pid.length == (if a.kind = .Integrated then 8 else 0)
 end C12
 open C12 in
 def stepC12 : Step := fun toks =>
@@ -51,17 +51,16 @@ def stepC12 : Step := fun toks =>
     let s := Hex.decode h
     some (showModel (Address.fromHex H validKey s), showSpec (Spec.Address.parseHex H validKeySpec s))
   | ["c12_fmt", n, k, s, v, p] => do
-    match ← mkAddr n k s v p with
-    | none => pure ("err", "err")
-    | some a => pure (s!"{Hex.encode (Address.asBytes H a)} {optHex (Address.toStr H a)}",
-        s!"{Hex.encode (Spec.Address.blob H a.net a.kind a.spend a.view a.pid)} {Hex.encode (Spec.Address.text H a.net a.kind a.spend a.view a.pid)}")
+    let a ← mkAddr n k s v p
+    pure ((if constructible validKey a then s!"{Hex.encode (Address.asBytes H a)} {optHex (Address.toStr H a)}" else "err"),
+      (if constructible validKeySpec a then
+        s!"{Hex.encode (Spec.Address.blob H a.net a.kind a.spend a.view a.pid)} {Hex.encode (Spec.Address.text H a.net a.kind a.spend a.view a.pid)}"
+       else "err"))
   | ["c12_forms", n, k, s, v, p] => do
-    match ← mkAddr n k s v p with
-    | none => pure ("err", "err")
-    | some a =>
-      let blob := Spec.Address.blob H a.net a.kind a.spend a.view a.pid
-      pure (s!"{Hex.encode (Address.asHex H a)} {Hex.encode (Address.consensusEncode H a)}",
-        s!"{Hex.encode (Spec.Address.hexOf blob)} {Hex.encode (UInt8.ofNat blob.length :: blob)}")
+    let a ← mkAddr n k s v p
+    let blob := Spec.Address.blob H a.net a.kind a.spend a.view a.pid
+    pure ((if constructible validKey a then s!"{Hex.encode (Address.asHex H a)} {Hex.encode (Address.consensusEncode H a)}" else "err"),
+      (if constructible validKeySpec a then s!"{Hex.encode (Spec.Address.hexOf blob)} {Hex.encode (UInt8.ofNat blob.length :: blob)}" else "err"))
   | ["c12_b58_enc", h] =>
     let b := Hex.decode h
     some ((match B58.encode b with | none => "err" | some s => Hex.encode s), Hex.encode (Base58.encode b))
